@@ -52,7 +52,7 @@ pub fn run(cx: &mut Ctx) {
         }
         let _ = std::fs::remove_dir_all(&dir);
     });
-    let n = cx.a.n(3_000, 150_000);
+    let n = cx.a.n(8_000, 150_000);
     for _ in 0..n {
         cx.case("history", |c| fsx::run_history(c, Focus::General));
     }
